@@ -82,6 +82,9 @@ def random_cases(ctx):
                 yield {"version": version, "steps": steps}
 
     rng = ctx.rng
+    for i in range(ctx.pick(300, 20000) // ctx.shard_count):
+        version = [None, *VERSIONS][i % 6]
+        yield {"version": version, "steps": histories.rich_history(rng, version, rng.choice([20, 60, 150]))}
     for i in range(ctx.pick(400, 100000) // ctx.shard_count):
         version = [None, *VERSIONS][i % 6]
         gen = histories.HistoryGen(rng, version)
